@@ -148,7 +148,14 @@ def main() -> int:
             if getattr(mod, "RULE_ADDENDA", None):
                 out.rule += "; also: " + mod.RULE_ADDENDA
             import dets as dets_mod
-            for cls_f, params_f, why_f in dets_mod.FAILED_CONSTRUCTIONS[:5]:
+            domain_rejections = [f for f in dets_mod.FAILED_CONSTRUCTIONS if f[2].startswith("ValueError:") and not (not f[1])]
+            if domain_rejections and prop != "C19":
+                # a generated configuration REJECTED WITH A ValueError (the library's way of saying "outside the accepted domain"): this property is quantified over accepted
+                # configurations, so the case is skipped; whether the rejection agrees with the stated domain is C19's question, and C19 asks it
+                out.stats["generated_configurations_rejected_by_the_constructor"] = len(domain_rejections)
+                out.notes.append("generated configurations rejected by the constructor with ValueError (skipped here, judged by C19): "
+                                 + "; ".join(f"{c}{p_}: {w}" for c, p_, w in domain_rejections[:3]))
+            for cls_f, params_f, why_f in [f for f in dets_mod.FAILED_CONSTRUCTIONS if prop == "C19" or f not in domain_rejections][:5]:
                 out.violation(f"{cls_f}: a configuration meant to be valid (defaults or generated inside the documented domains) was rejected by the constructor: {why_f}",
                               {"class": cls_f, "params": params_f, "kind": "constructor"})
         # The tie between model and code is broken but the property's own oracle found nothing: search harder for a failing input on the
